@@ -48,14 +48,22 @@ def wl_cbf(ctx, rng, case):
             k = rng.choice(keys)
             n = rng.choice([1, 1, 1, 2, 3, 9, 1000])
             case.op("add", k, n)
-            ret = f.add(k, n) if n != 1 or rng.random() < 0.5 else f.add(k)
+            if rng.random() < 0.15:
+                ret = f.add_alt(f.hashes(k, kk + rng.randint(0, 5)), n)  # the key hashed for a (possibly) deeper structure
+                ctx.count("op.add_alt_deeper_list")
+            else:
+                ret = f.add(k, n) if n != 1 or rng.random() < 0.5 else f.add(k)
             out[k] += n
             ctx.count("op.add")
         elif r < 0.85:
             k = rng.choice(live)
             n = rng.randint(1, out[k]) if rng.random() < 0.7 else out[k]
             case.op("remove", k, n)
-            ret = f.remove(k, n) if n != 1 or rng.random() < 0.5 else f.remove(k)
+            if rng.random() < 0.15:
+                ret = f.remove_alt(f.hashes(k, kk + rng.randint(0, 5)), n)
+                ctx.count("op.remove_alt_deeper_list")
+            else:
+                ret = f.remove(k, n) if n != 1 or rng.random() < 0.5 else f.remove(k)
             out[k] -= n
             removes += 1
             ctx.count("op.remove")
